@@ -403,6 +403,13 @@ def template_cases(st):
             add("duration-extra-tag", f"({mk}/3 s, {s2}, ({s1}))")
             add("unknown-unit", f"({mk}/3 zzq, ({s1}))")
         add("valid:duration", f"(Delay/3 s, Duration/2 s, ({s1}))")
+        if attr("Event-context", "topLevelTagGroup"):
+            # Delay may share its group with a temporal tag only: any other top-level-group tag beside it, in either order
+            add("two-toplevel-tags", f"(Delay/5 s, Event-context, ({s1}))")
+            add("two-toplevel-tags", f"(Event-context, Delay/5 s, ({s1}))")
+            add("two-toplevel-tags", f"(Event-context, ({s1}), Delay/5 s)")
+            add("two-toplevel-tags", f"(Duration/5 s, Event-context, ({s1}))")
+            add("two-toplevel-tags", f"(Event-context, Duration/5 s, ({s1}))")
         add("valid:duration", f"(Duration/2 s, Delay/3 s, ({s1}))")
     return out
 
@@ -441,6 +448,39 @@ def judge(rec, st, kind, text, expected, ph, statekey, via_string=False):
             rec.outcome("missed:" + kind)
         else:
             rec.outcome("caught:" + kind)
+
+
+def sweep_verdicts():
+    """Error codes of every reserved-tag template of 8.3.0 (both placeholder settings) - run once per hash seed."""
+    from hed.models.hed_string import HedString
+    st = Setup("HED8.3.0.xml")
+    out = {}
+    for kind, text, expected, phs, _ in template_cases(st):
+        for ph in phs:
+            try:
+                issues = st.validator.validate(HedString(text, st.schema, st.def_dict), allow_placeholders=ph)
+                out[f"{text} | placeholders={ph}"] = sorted(i["code"] for i in issues if i["severity"] == ERR)
+            except Exception as e:
+                out[f"{text} | placeholders={ph}"] = ["RAISES:" + type(e).__name__]
+    return out
+
+
+def hash_seed_check(ctx):
+    """The verdict on an annotation must not depend on the interpreter's string-hash seed (set iteration order)."""
+    seeds = list(range(1, ctx.pick(9, 25)))
+    res = core.hash_sweep("props.c01", "sweep_verdicts", seeds)
+    base = sweep_verdicts()
+    rec = ctx.rec
+    for seed, got in sorted(res.items()):
+        rec.n("evaluations", len(got))
+        rec.n("transitions", len(got))
+        rec.n("distinct_nontrivial", len(got))
+        for text, codes in got.items():
+            if codes != base.get(text):
+                rec.violation("C01:verdict-depends-on-hash-seed", text=text, seed=seed, codes=codes, codes_seed0=base.get(text))
+                break
+    rec.outcome("hash-seeds-agree")
+    rec.notes["hash_seeds"] = [0] + seeds
 
 
 def worker(rec, shard, nshards, setups, bounds, seed):
@@ -485,6 +525,7 @@ def run(ctx):
                                "excluded_reserved": list(hedgen.RESERVED)}
     ctx.rec.notes["defs_available"] = {s.label: s.defs_ok for s in setups}
     ctx.parallel(worker, setups, bounds, ctx.seed)
+    hash_seed_check(ctx)
     ctx.rec.counts["states"] = len(ctx.rec.states)
 
 
